@@ -2,7 +2,7 @@
 MANIFEST.json).  Harness naming convention: <group>_<q|t>_<shape>; `q` harnesses run in both
 tiers, `t` only in the thorough tier."""
 
-HOOK_COMMITS = ["70c9beb"]
+HOOK_COMMITS = ["70c9beb", "09616d7"]
 
 ENGINES = [
     {
@@ -88,6 +88,56 @@ PLAN["C13"] = {
     "level_note": KANI_NOTE + ARCH_NOTE,
 }
 
+PLAN["C01"]["quick"] += ["world_q_"]
+PLAN["C01"]["thorough"] += ["world_t_"]
+PLAN["C13"]["quick"] += ["world_q_", "allocc_q_"]
+PLAN["C13"]["thorough"] += ["world_t_", "allocc_t_"]
+PLAN["C13"]["stubs"] = ["hashbrown -> /verif/models/hashbrown (E2) for the world_/allocc_ harnesses", "fnv -> constant hasher (hash values are ignored by the hashbrown model)"]
+PLAN["C02"]["quick"] += ["world_q_"]
+PLAN["C02"]["thorough"] += ["allocc_"]
+PLAN["C04"]["quick"] += ["clone_q_", "clonefrom_q_"]
+PLAN["C04"]["thorough"] += ["clone_t_", "clonefrom_t_"]
+PLAN["C05"]["thorough"] += ["clone", "view_", "entryq_"]
+
+PLAN["C03"] = {
+    "quick": ["filt_q_", "view_q_", "entryq_q_"],
+    "thorough": ["view_t_", "entryq_t_", "iter_"],
+    "bounds": {"quick": "registry<=4 (+9 for the filter family), rows<=3, view lists<=5", "thorough": "same; result iterator over a table of 2 archetypes with Identifier views only"},
+    "outside": ["result iterator over several archetypes with component views (does not fit in memory; its three per-archetype steps view/reshape/iterate are checked on a local archetype, its filter separately)", "query-time Entries", "mutation through views followed by re-reads (address equality is checked instead)", "hash-order dependent interleavings of archetypes"],
+    "stubs": ["hashbrown -> /verif/models/hashbrown (E2) for entryq_/iter_", "fnv -> constant hasher"],
+    "level_text": "Bounded model checking: every filter form is compared with a reference predicate for a symbolic identifier (all component sets of the registry at once); every reference yielded by Archetype::view+reshape and by Entry::query is compared by address with the cell of exactly that component and row, optional views are None iff the bit is clear, one result per row, size_hint brackets the remaining count before every next().",
+    "level_note": KANI_NOTE + ARCH_NOTE,
+}
+
+PLAN["C10"] = {
+    "quick": ["clone_q_", "clonefrom_q_", "allocc_q_"],
+    "thorough": ["clone_t_", "clonefrom_t_", "allocc_t_"],
+    "bounds": {"quick": "rows<=2 per side, slots<=3", "thorough": "rows<=3 per side, slots<=4; destination longer, equal, shorter; capacity sufficient and insufficient"},
+    "outside": ["Archetypes::clone/clone_from (table level) and World::clone beyond their archetype and allocator halves", "further histories on both worlds (covered only through the invariants the clone re-establishes)"],
+    "stubs": ["hashbrown -> /verif/models/hashbrown (E2) for the identifier map of allocc_", "fnv -> constant hasher"],
+    "level_text": "Bounded model checking of Archetype::clone/clone_from and Allocator::clone/clone_from: contents equal to the source row by row whatever the destination held, every buffer of the clone is its own allocation, dropping either side leaves the other intact, ledger shows replaced values dropped once and clones minted once; the allocator clone copies generations, liveness and free-list order and maps every location into the clone's own archetypes.",
+    "level_note": KANI_NOTE + ARCH_NOTE,
+}
+
+PLAN["C16"] = {
+    "quick": ["eq_q_"],
+    "thorough": ["eq_t_"],
+    "bounds": {"quick": "rows<=2", "thorough": "rows<=3, 4-component registry"},
+    "outside": ["Archetypes::eq / World::eq above Archetype::component_eq and the derived slot comparison", "worlds beyond the shapes"],
+    "level_text": "Bounded model checking: for two symbolic archetypes of one shape, component_eq(a,b) holds exactly when identifier columns and all value columns are equal row by row (reference model), and is symmetric and reflexive.",
+    "level_note": KANI_NOTE + ARCH_NOTE,
+}
+
+PLAN["C18"] = {
+    "quick": ["batch_q_", "dupnew_q_", "dupres_q_", "dupdef_q_", "nodup_q_"],
+    "thorough": ["batch_t_", "dupnew_t_", "dupres_t_", "dupdef_t_", "nodup_t_"],
+    "bounds": {"quick": "batches of 1..3 columns with symbolic lengths 0..=3; registries of length 2,3 (all position pairs) and 9 (7,8)", "thorough": "batches of 1..4 columns; registries of length 2..5 (all position pairs), length 9 pairs straddling the byte boundary"},
+    "outside": ["registry lengths 6..8", "World::deserialize with a duplicated registry (not built)"],
+    "stubs": ["hashbrown -> /verif/models/hashbrown (E2): HashSet<TypeId> used by the duplicate check", "fnv -> constant hasher"],
+    "level_text": "Bounded model checking: Batch::new returns iff all (symbolic) column lengths are equal and otherwise panics (the statement after the constructor is unreachable for every ragged input); every World constructor panics for every instantiated registry with a duplicated component and returns for duplicate-free ones. The registry family is instantiated exhaustively up to the bound, not solver-quantified.",
+    "level_note": KANI_NOTE,
+}
+
 for _p in PLAN.values():
     _p.setdefault("level", "model_checking")
     _p.setdefault("stubs", [])
@@ -95,7 +145,7 @@ for _p in PLAN.values():
     _p.setdefault("explanation", "")
 
 _claimed = set(PLAN)
-for _p in ["C01", "C02", "C03", "C04", "C05", "C06", "C07", "C08", "C09", "C10", "C11", "C12", "C15", "C16", "C18"]:
+for _p in ["C06", "C07", "C08", "C09", "C11", "C12", "C15"]:
     if _p not in _claimed:
         NOT_APPLICABLE.append({"property_id": _p, "reason": "not claimed yet: the harnesses for this property are still under construction (see DESIGN.md build order)"})
 NOT_APPLICABLE.sort(key=lambda x: x["property_id"])
